@@ -5,6 +5,7 @@ Correspondence (real code vs compiled Lean model, same cases):
   logread   options.readFile / options.tailFile on real files            vs Model/LogRead.lean
   rpclog    SupervisorNamespaceRPCInterface.readLog / readProcess*Log /
             tailProcess*Log over DummySupervisor with real log files      vs Model/RpcLog.lean
+            (and, monitor only, the same methods as HTTP bytes through the real XML-RPC handler on a real channel: run_rpc_wire)
   tailf     http.tail_f_producer on real files that grow / rotate / are
             cleared / truncated / unlinked between more() calls           vs Model/TailF.lean
   chunkenc  http.deferring_chunked_producer over a scripted producer      vs Model/Chunked.lean (encoder)
@@ -782,9 +783,79 @@ def run_chain(ctx):
         chain_case(ctx, s, i, main=(i % 2 == 1))
 
 
+# =================================================================================================
+# the log methods over the wire: real supervisor_xmlrpc_handler on a real deferring_http_channel (socketpair)
+# =================================================================================================
+def rpc_wire_case(ctx, content, meth, off, ln):
+    """one log method requested as HTTP bytes through the real handler on a real channel, judged on the response bytes"""
+    import props.c12 as c12
+    from supervisor import xmlrpc
+    c12._CTX[0] = ctx
+    path = os.path.join(ctx.scratch, 'wirelog')
+    with open(path, 'wb') as f:
+        f.write(content)
+    iface = make_interface(1, path, path)
+    subs = [('supervisor', iface)]
+    subs.append(('system', xmlrpc.SystemNamespaceRPCInterface(subs)))
+    h = xmlrpc.supervisor_xmlrpc_handler(iface.supervisord, subs)
+    params = [off, ln] if meth == 'readLog' else ['grp:proc', off, ln]
+    inp = {'part': 'rpcwire', 'content_hex': hexs(content), 'method': meth, 'offset': off, 'length': ln}
+    res = c12.wire_request(h, 'supervisor.' + meth, params, replay_input=inp)
+    # what the statement requires
+    if meth.startswith('tail'):
+        d, sz, ov = spec_tail_window(content, off, ln)
+        want = ('value', [d.decode('utf-8', 'replace'), sz, bool(ov)])
+    else:
+        sp = spec_read(content, off, ln)
+        want = ('fault', xmlrpc.Faults.BAD_ARGUMENTS) if sp.startswith('err') else \
+               ('value', (bytes.fromhex(sp[3:]) if sp[3:] != '-' else b'').decode('utf-8', 'replace'))
+    got = res.get('answer') if res.get('status') == 200 else ('http', res.get('status'))
+    ctx.count('wire:' + meth); ctx.count('wire-answer:' + str(got[0]))
+    ctx.case_done(('rpcwire', content, meth, off, ln), nontrivial=len(content) > 0)
+    if got == want:
+        return
+    text = want[1] if want[0] == 'value' and isinstance(want[1], str) else (want[1][0] if want[0] == 'value' else '')
+    ctl = sorted(set(c for c in text if ord(c) < 32 and c not in '\t\n\r'))
+    if got[0] == 'unparseable' and ctl:
+        ctx.violation('xmlrpc-answer-not-wellformed:control-char', 'over the wire: the response for this window cannot be parsed; characters %r' % ctl, inp)
+    elif got[0] == 'value' and '\r' in text and norm_cr(got[1]) == norm_cr(want[1]):
+        ctx.violation('xmlrpc-answer-altered:cr-normalised', 'over the wire the client receives %r for %r' % (got[1], want[1]), inp)
+    elif got[0] == 'http':
+        ctx.violation('log-rpc-http-error:%s' % got[1], '%s%r answered HTTP %s' % (meth, tuple(params), got[1]), inp)
+    else:
+        ctx.violation('log-rpc-wire-wrong-answer:' + ('tail' if meth.startswith('tail') else 'read'),
+                      'over the wire %r, the statement requires %r' % (got, want), inp)
+
+
+def run_rpc_wire(ctx):
+    """readLog / readProcessStdoutLog / tailProcessStdoutLog requested as HTTP bytes; judged on the bytes that come
+    back: Content-Length == number of body bytes (checked inside wire_request), the body parses, and the value is the
+    decoded window the statement requires.  Multi-byte and binary log contents, windows that cut characters."""
+    rng = ctx.rng
+    contents = ['aé€'.encode(), 'é'.encode() * 3, 'x\U0001f600y€'.encode(), b'a\xc3', b'\xe2\x82', b'\xff\xfeabc', 'plain ascii\n'.encode(),
+                'ünïcödé log line\n'.encode() * 3]
+    for _ in range(ctx.n(10, 150)):
+        contents.append(gen_content(rng, rng.choice([1, 3, 8, 30])))
+    for content in contents:
+        n = len(content)
+        windows = [(0, 0), (0, n), (1, max(1, n - 1)), (-2, 0), (n - 1, 5), (-1, 1)] + [(rand_int(rng, n), rand_int(rng, n)) for _ in range(2)]
+        for off, ln in windows:
+            for meth in ('readLog', 'readProcessStdoutLog', 'tailProcessStdoutLog'):
+                rpc_wire_case(ctx, content, meth, off, ln)
+
+
+def norm_cr(v):
+    if isinstance(v, str):
+        return v.replace('\r\n', '\n').replace('\r', '\n')
+    if isinstance(v, list):
+        return [norm_cr(x) for x in v]
+    return v
+
+
 def run(ctx):
     run_logread(ctx)
     run_rpclog(ctx)
+    run_rpc_wire(ctx)
     run_tailf(ctx)
     run_chunked(ctx)
     run_chain(ctx)
@@ -805,6 +876,8 @@ def replay(ctx, data):
         content = bytes.fromhex(inp['content_hex']) if inp['content_hex'] != '-' else b''
         rpc_one(ctx, inp['mood'], inp['log'], content, [(inp['method'], inp['name'] == 'grp:proc', inp['offset'], inp['length'])],
                 os.path.join(ctx.scratch, 'rpclog'), [], [], force_xml=True)
+    elif part == 'rpcwire':
+        rpc_wire_case(ctx, bytes.fromhex(inp['content_hex']) if inp['content_hex'] != '-' else b'', inp['method'], inp['offset'], inp['length'])
     elif part == 'tailf':
         tailf_case(ctx, deser(inp['script']), inp['head'], 0)
     elif part == 'chain':
